@@ -487,7 +487,9 @@ func runNested() {
 		{"add", "-q", "tRuE", "x"}, {"add", "--force=tRuE", "x"}, {"add", "-o", "-", "x"}, {"add", "--out", "-", "x"}, {"add", "--out", "-x", "x"}, {"add", "-o=", "x"},
 		{"add", "-o==x", "y"}, {"add", "-ofile", "-q", "x"}, {"add", "-q", "-ofile", "x"}, {"add", "--out=v", "--force", "x"}, {"list", "\xe9"}, {"add", "caf\xe9"},
 		{"-v", "add", "x", "add"}, {"add", "list"}, {"remote", "remote"}, {"remote", "add", "add"}, {"list", "1", "--"}, {"list", "--", "1", "--"},
-		{"-t", "a", "-t", "b", "list", "1"}, {"--tag=a", "-tb"}, {"-t", "a", "x"}}
+		{"-t", "a", "-t", "b", "list", "1"}, {"--tag=a", "-tb"}, {"-t", "a", "x"},
+		{"add", "--out==x", "y"}, {"add", "-I", "first", "-o", "out", "-I", "second", "-I", "third", "x"}, {"add", "-I", "a", "-Ib", "--inc=c", "x"},
+		{"--noTrunc"}, {"--noTrunc", "x"}, {"-v", "--noTrunc", "list", "1"}, {"add", "-qI", "a", "x"}, {"add", "-o", "v", "-q", "x", "y"}, {"add", "-q", "-o", "v", "x", "y"}}
 	for _, argv := range argvs {
 		for _, withRootArg := range []bool{false, true} {
 			argv, withRootArg := argv, withRootArg
@@ -501,10 +503,11 @@ func runNested() {
 				v := app.BoolOpt("v verbose", false, "be verbose")
 				ecole := app.StringOpt("é ecole", "", "non-ASCII short name")
 				tags := app.StringsOpt("t tag", nil, "tags")
+				noTrunc := app.BoolOpt("noTrunc", false, "camel-case long name")
 				var dir *string
 				if withRootArg {
 					dir = app.StringArg("DIR", "", "a directory")
-					app.Spec = "[-v] [--ecole] [-t...] [DIR]"
+					app.Spec = "[-v] [--ecole] [-t...] [--noTrunc] [DIR]"
 					app.Action = step("root.action")
 				}
 				app.Before, app.After = step("root.before"), step("root.after")
@@ -513,6 +516,7 @@ func runNested() {
 				var items *[]string
 				var force, quiet *bool
 				var out *string
+				var incs *[]string
 				app.Command("remote r", "manage remotes", func(c *cli.Cmd) {
 					c.LongDesc = "A longer description of remote"
 					c.Before, c.After = step("remote.before"), step("remote.after")
@@ -537,6 +541,7 @@ func runNested() {
 					force = c.BoolOpt("f force", false, "force")
 					quiet = c.BoolOpt("q", false, "quiet")
 					out = c.StringOpt("o out", "", "output")
+					incs = c.StringsOpt("I inc", nil, "includes")
 					items = c.StringsArg("ITEM", nil, "items")
 					c.Action = step("add.action")
 				})
@@ -555,7 +560,7 @@ func runNested() {
 						err = app.Run(av)
 					}()
 					deref := func() string {
-						r := fmt.Sprintf("v=%v ecole=%q tags=%q", *v, *ecole, *tags)
+						r := fmt.Sprintf("v=%v ecole=%q tags=%q noTrunc=%v", *v, *ecole, *tags, *noTrunc)
 						if dir != nil {
 							r += fmt.Sprintf(" dir=%q", *dir)
 						}
@@ -563,7 +568,7 @@ func runNested() {
 							r += fmt.Sprintf(" ids=%v prio=%d", *ids, *prio)
 						}
 						if items != nil {
-							r += fmt.Sprintf(" items=%q force=%v quiet=%v out=%q", *items, *force, *quiet, *out)
+							r += fmt.Sprintf(" items=%q force=%v quiet=%v out=%q incs=%q", *items, *force, *quiet, *out, *incs)
 						}
 						return r
 					}
